@@ -311,8 +311,8 @@ class _RealFinder:
     def is_a_class_or_function_name_in_header(self, offset):
         word_start = self._find_word_start(offset - 1)
         line_start = self._get_line_start(word_start)
-        prev_word = self.code[line_start:word_start].strip()
-        return prev_word in ["def", "class"]
+        prev_words = self.code[line_start:word_start].split()
+        return prev_words in (["def"], ["class"], ["async", "def"])
 
     def _find_first_non_space_char(self, offset):
         if offset >= len(self.code):
